@@ -564,7 +564,7 @@ let pberr_s = function
   | BFormatError -> "FormatError" | BFormatTypeMismatch -> "FormatTypeMismatch"
   | BNumberingMixture -> "ArgumentNumberingMixture" | BRangeError -> "ArgumentRangeError" | BTypeMismatch -> "ArgumentTypeMismatch"
 let pybrace_res_s = function
-  | Ok (sg : pb_sig) -> "ok " ^ String.concat ";" (List.map (fun (k, (t, n)) -> akey_s k ^ "=" ^ tset_s t ^ "x" ^ string_of_int (int_of_nat n)) sg)
+  | Ok (sg : pb_sig) -> "ok " ^ String.concat ";" (List.map (fun (k, (t, n)) -> akey_s k ^ "=" ^ String.concat "|" (List.init (int_of_nat n) (fun _ -> tset_s t))) sg)
   | Err e -> "err " ^ pberr_s e
   | Crash c -> "crash " ^ crash_name c
 let optn_s = function None -> "-" | Some c -> ns c
@@ -854,6 +854,8 @@ let handle (op : string) (a : string array) : string =
     ^ " " ^ String.concat " " (List.map event_s (cpy_events s))
   | "cpyfmt" -> cres_s (cpy_format (arg_str a.(0)) (fst (arg_val a 1)))
   | "pybrace" -> pybrace_res_s (pybrace_parse_gen (arg_str a.(0)))
+  | "pydomain" -> let (a, b) = pybrace_domain_gen (arg_str a.(0)) in
+    (if a then "flat=1" else "flat=0") ^ (if b then " guard=1" else " guard=0")
   | "cpymarkup" -> (match cpy_markup (arg_str a.(0)) with
                     | None -> "err"
                     | Some l -> "ok " ^ String.concat " " (List.map mitem_s l))
